@@ -38,7 +38,7 @@ ASSUMPTIONS = [
 ROUTINES = ["dqn", "nature_dqn", "ddqn", "per", "ddpg", "td3", "td3_lap", "sac",
             "td7", "mrq", "pets", "reinforce", "actor_critic", "a2c", "a2c_same",
             "ppo", "q_learning", "sarsa", "double_q_learning", "monte_carlo",
-            "dynaq"]
+            "dynaq", "rollout_helper"]
 COST = {"mrq": 14, "pets": 10, "td7": 8, "dqn": 7, "ppo": 7, "dynaq": 5, "sac": 4,
         "ddpg": 3, "td3": 3, "td3_lap": 3}
 
@@ -211,11 +211,62 @@ def _obs_recorder(trace, name, fn, obs_arg):
     return wrapper
 
 
+def run_rollout_helper(case):
+    """generate_rollout returns the episode record (obs, actions, rewards)."""
+    res = Result()
+    import jax.numpy as jnp
+
+    from rl_blox.util.experiment_helper import generate_rollout
+    from vf.loop import ScriptEnv, Trace
+
+    tr = Trace()
+    tr.snap_enabled = False
+    L, kind = case["script"][0]
+    env = ScriptEnv(tr, [(L, kind)], n_actions=3)
+    seen = []
+
+    def policy(observation, key):
+        seen.append(np.array(observation, copy=True))
+        return jnp.asarray((len(seen) * 2) % 3)
+
+    ok, out = guarded(res, "C01/raises/rollout_helper", generate_rollout, env,
+                      policy, case["seed"])
+    if not ok:
+        return res
+    res.see("routines_run")
+    res.see("run_rollout_helper")
+    obs, acts, rews = [np.asarray(x) for x in out]
+    steps = [e for e in tr.events if e["k"] == "step"]
+    resets = [e for e in tr.events if e["k"] == "reset"]
+    want_obs = [resets[0]["obs"]] + [e["obs"] for e in steps]
+    if not (_eq(obs, np.asarray(want_obs)) and
+            _eq(acts, [int(e["action"]) for e in steps]) and
+            np.allclose(rews, [e["reward"] for e in steps], rtol=1e-6)):
+        res.violation("C01/episode_records/rollout_helper", "generate_rollout's "
+                      "returned arrays differ from the environment episode")
+    cur = resets[0]["obs"]
+    for o, e in zip(seen, steps):
+        if not _eq(o, cur):
+            res.violation("C01/acting_on_stale_observation/rollout_helper",
+                          "policy conditioned on an observation other than the "
+                          "current one")
+            break
+        cur = e["obs"]
+        res.see("acting_observations_checked")
+    res.see("stored_transitions_checked", len(steps))
+    res.see("episode_boundaries_crossed")
+    res.nontrivial = len(steps) >= 2
+    res.state(("rollout_helper", kind))
+    return res
+
+
 def run_case(case):
     res = Result()
     from vf.algos import make_run
 
     algo = case["algo"]
+    if algo == "rollout_helper":
+        return run_rollout_helper(case)
     cfg = dict(case)
     cfg.update(batch_size=4, update_frequency=2, target_update_frequency=5,
                low=[-1.0, 0.5], high=[2.0, 3.0], snapshots=False,
